@@ -29,7 +29,7 @@ def main():
     srcs |= {s["src"] for t in X.TARGETS.values() for s in t.get("types", {}).values() if s.get("src")}
     for s in srcs:
         os.makedirs(os.path.dirname(s), exist_ok=True)
-        shutil.copy(os.path.join("/repo", os.path.relpath(s, root)), s)
+        shutil.copy(os.path.join(os.environ.get("R2C_SELFTEST_SRC") or "/repo", os.path.relpath(s, root)), s)
     if patch.endswith(".diff"):
         r = subprocess.run(["patch", "-p1", "-s", "-d", root, "-i", os.path.abspath(patch)], capture_output=True, text=True)
         if r.returncode:
